@@ -7,7 +7,7 @@
  5. frame pairing: every path from the function-call push to any exit passes the pop
  6. R-RESUME for STOP inside THEN..ELSE
 """
-from lib import (sfx, get_fn, callers_of, strip_expr, strip_refs, show, expr_calls, aggregates, switch_arms_on, arm_target,
+from lib import (expr_params, sfx, get_fn, callers_of, strip_expr, strip_refs, show, expr_calls, aggregates, switch_arms_on, arm_target,
                  exclusive_region, region_aggregates, bool_switch_true_target)
 from props import C06
 from props.C01 import _reaches_avoiding
@@ -230,9 +230,158 @@ def run(ck, F, E):
                            "%d paths of evaluate_user_defined_function_call take more frames off the stack than they pushed: an FN call "
                            "in an immediate PRINT at a breakpoint removes a GOSUB frame of the interrupted program" % extra, pops[0].span)
 
+    # ---- (5b) a control statement that fails with its specified error has not touched the continuation before failing
+    fail_readonly(ck, F, E)
+
     # ---- breaking at an INPUT prompt and CONTinuing re-executes the INPUT statement: it must do nothing until a reply exists
     from props.C08 import await_rule
     await_rule(ck, F, E, "C07")
 
     # ---- (6)
     C06.resume_rule(ck, F, "C07")
+
+
+CONTROL_FAILURES = ("NextWithoutFor", "ReturnWithoutGosub", "CannotContinue")
+CONTINUATION = ("stack", "loop_stack", "breakpoint", "data_iterator", "functions")
+MUTATORS = ("pop", "clear", "truncate", "drain", "remove", "swap_remove", "retain", "push", "insert", "take", "split_off", "extend")
+
+
+def fail_readonly(ck, F, E):
+    """`NEXT Q`, `RETURN` or `CONT` typed at a breakpoint may fail (NEXT WITHOUT FOR, RETURN WITHOUT GOSUB, CAN'T CONTINUE);
+    a failing statement must leave the interrupted program's continuation as it was.  For every Program method that builds
+    one of these errors: on every path that reaches the construction, Program.{stack, loop_stack, breakpoint,
+    data_iterator, functions} has not been modified -- directly, or through a local callee unless the error sits on the
+    None / Err arm of that callee's result and the callee's failing paths are themselves write-free.  One accepted idiom:
+    re-checking the name of the element a finder returned for that very name (a dead post-condition check)."""
+    from props import C16
+    from props.C11 import writes_only_without_breakpoint
+    from lib import path_records, on_ok_arm
+    n_sites = 0
+    seen_variants = set()
+    for body in F.bodies.values():
+        if body.crate != "abasic_core" or body.self_adt != PROGRAM:
+            continue
+        errs = [(b, v, sp) for (b, i, pl, rv, sp) in aggregates(body, "interpreter_error::InterpreterError")
+                for v in [rv.get("variant")] if v in CONTROL_FAILURES]
+        if not errs:
+            continue
+        fi = E.info[body.path]
+        for (eb, variant, sp) in errs:
+            n_sites += 1
+            seen_variants.add(variant)
+            key = "C07:FAIL-READONLY:%s:%s#%d" % (body.path.split("::")[-1], variant, sum(1 for x in errs if x[1] == variant and x[0] <= eb))
+            bad = []
+            for c in body.calls():
+                if c.bb == eb or not body.reaches(c.bb, eb):
+                    continue
+                touched = set()
+                if not c.is_local:
+                    rf = C16.receiver_field(body, c)
+                    if rf and rf[0] == PROGRAM and rf[1] in CONTINUATION and c.callee.split("::")[-1] in MUTATORS:
+                        # `let Some(x) = v.pop() else { return Err(..) }`: a pop that returned None removed nothing
+                        in_loop = any(c.bb in blk for blk in body.natural_loops().values())
+                        if in_loop or not (c.callee.split("::")[-1] in ("pop", "take", "remove") and _on_failure_arm_of(body, c, eb)):
+                            touched.add(rf[1])
+                elif c.callee in E.info:
+                    ci = E.info[c.callee]
+                    for (k, p) in ci.writes:
+                        if k == "?" or k >= len(c.args):
+                            continue
+                        for (r, pp, m) in E._map_callee_loc(fi, c.args[k], p, ci.param_is_ref[k]):
+                            if r == ("p", 0) and pp and pp[0][0] == PROGRAM and pp[0][1] in CONTINUATION:
+                                touched.add(pp[0][1])
+                    if "stack" in touched and writes_only_without_breakpoint(F, E, c.callee, "stack"):
+                        touched.discard("stack")     # dropped only when nothing can be continued
+                    if touched and _on_failure_arm_of(body, c, eb) and _failing_paths_write_free(F, E, c.callee, touched):
+                        touched = set()
+                    if touched and _postcondition_recheck(F, body, c, eb):
+                        touched = set()
+                if touched:
+                    bad.append("%s modifies Program.%s" % (c.callee.split("::")[-1], ",".join(sorted(touched))))
+            for (b2, i2, pl2, rv2, sp2) in body.assigns():
+                if b2 != eb and body.reaches(b2, eb):
+                    fs = [p for p in pl2["proj"] if p["k"] == "field"]
+                    if fs and fs[0].get("name") in CONTINUATION and fs[0].get("adt", "").endswith("program::Program"):
+                        bad.append("assignment to Program.%s" % fs[0]["name"])
+            ck.require(not bad, key, "failing control statements are read-only",
+                       "nothing of the continuation is modified on a path that reaches Err(%s)" % variant,
+                       "%s can report %s after it has already modified the continuation (%s): a failing statement typed at a "
+                       "breakpoint changes what CONT resumes" % (body.path, variant, "; ".join(sorted(set(bad)))), sp)
+    ck.floor("C07.control-statement failures constructed in Program", len(seen_variants), len(CONTROL_FAILURES))
+
+
+def _on_failure_arm_of(body, call, bb):
+    """bb is reached only through the None / Err / false arm of `call`'s result."""
+    if call.target is None:
+        return False
+    for b in sorted(body.blocks_reachable_from(call.target)):
+        info = body.switch_info(b)
+        if not info or not info[3]:
+            continue
+        cs = [x[3] for x in expr_calls(info[0]) if len(x) > 3]
+        if not any(x is call for x in cs):
+            continue
+        for v, n in info[3].items():
+            if n in ("None", "Err", "Break"):
+                t = info[1].get(v, info[2])
+                if t is not None and (t == bb or body.dominates(t, bb)):
+                    return True
+    return False
+
+
+def _failing_paths_write_free(F, E, callee, fields):
+    """No direct mutation of the given Program fields on any path of `callee` that returns None / Err."""
+    from props import C16
+    from lib import path_records
+    cb = F.bodies.get(callee)
+    if cb is None:
+        return False
+    try:
+        recs = path_records(cb)
+    except OverflowError:
+        return False
+    for r in recs:
+        # what is returned on this path?
+        ret = None
+        for b in r["path"]:
+            for st in cb.blocks[b]["stmts"]:
+                if st["k"] == "assign" and st["place"]["local"] == 0 and not st["place"]["proj"] and st["rv"]["k"] == "aggregate":
+                    ret = st["rv"].get("variant")
+        if ret not in ("None", "Err"):
+            continue
+        for c in r["calls"]:
+            rf = C16.receiver_field(cb, c) if not c.is_local else None
+            if rf and rf[0] == PROGRAM and rf[1] in fields and c.callee.split("::")[-1] in MUTATORS:
+                return False
+            if c.is_local and c.callee in E.info and any(k == 0 and p and p[0] == (PROGRAM, f_) for (k, p) in E.info[c.callee].writes for f_ in fields):
+                return False
+    return True
+
+
+def _postcondition_recheck(F, body, call, eb):
+    """The error is control dependent on comparing `.symbol` of the element `call` returned with the very name `call` was
+    asked for, and the callee selects its element by comparing `.symbol` with that parameter: a re-check that cannot fail."""
+    from lib import controlling_switches, expr_has_field
+    if len(call.args) < 2:
+        return False
+    asked = strip_expr(body.expr(call.args[1]))
+    asked_params = expr_params(asked)
+    for (sb, subj, names) in controlling_switches(body, eb):
+        cs = [x for x in expr_calls(subj)]
+        if not any(x[1].split("::")[-1] in ("ne", "eq") for x in cs):
+            continue
+        if not any(len(x) > 3 and x[3] is call for x in cs):
+            continue
+        if not expr_has_field(subj, "symbol"):
+            continue
+        if not (asked_params and asked_params <= expr_params(subj)):
+            continue
+        cb = F.bodies.get(call.callee)
+        if cb is None:
+            return False
+        bodies = [cb] + [F.bodies[p] for p in F.bodies if p.startswith(cb.path + "::{closure")]
+        for b2 in bodies:
+            for c2 in b2.calls():
+                if c2.callee.split("::")[-1] in ("eq", "ne") and any(expr_has_field(b2.expr(a), "symbol") for a in c2.args):
+                    return True
+    return False
